@@ -352,7 +352,8 @@ fn h_iter_entries<const W: usize, const SIZE: usize>() {
     });
     assert!(!bad);
     assert!(set_calls == (t < a.size && bit(&pa, t)) as u32);
-    kani::cover!(t >= (a.size / 32) * 32 && t < a.size && bit(&pa, t) || a.size % 32 == 0 && t < a.size && bit(&pa, t));
+    let vc_12 = t >= (a.size / 32) * 32 && t < a.size && bit(&pa, t) || a.size % 32 == 0 && t < a.size && bit(&pa, t);
+    kani::cover!(vc_12);
     kani::cover!(t >= a.size || SIZE == W * 32);
 }
 
